@@ -369,29 +369,35 @@ func ruleFORMAT1(c *Ctx) {
 	} else {
 		info := f.Info()
 		kinds := map[int64]bool{}
-		for _, call := range findAll[*ast.CallExpr](f.Body()) {
-			if !FuncCall(info, call, "jsontext", "mustReorderObjects") {
+		// WriteValue and the private helpers its kind dispatch may have been moved into
+		for _, g := range p.CalleeClosure(f, 2) {
+			if g.Body() == nil || (g != f && g.Decl == nil) {
 				continue
 			}
-			guard := false
-			for _, cc := range enclosingConds(p, f, call) {
-				if v, ok := IsFlagGet(info, cc.cond); ok && cc.then && v&^1 == ft.Single["ReorderRawObjects"] {
-					guard = true
+			for _, call := range findAll[*ast.CallExpr](g.Body()) {
+				if !FuncCall(info, call, "jsontext", "mustReorderObjects") {
+					continue
 				}
-			}
-			if !guard {
-				continue
-			}
-			var x ast.Node = call
-			for x != nil && x != ast.Node(f.Body()) {
-				x = p.Parent(f.File, x)
-				if cc, ok := x.(*ast.CaseClause); ok {
-					for _, e := range cc.List {
-						if v, ok := ConstI64(info, e); ok {
-							kinds[v] = true
-						}
+				guard := false
+				for _, cc := range enclosingConds(p, g, call) {
+					if v, ok := IsFlagGet(info, cc.cond); ok && cc.then && v&^1 == ft.Single["ReorderRawObjects"] {
+						guard = true
 					}
-					break
+				}
+				if !guard {
+					continue
+				}
+				var x ast.Node = call
+				for x != nil && x != ast.Node(g.Body()) {
+					x = p.Parent(g.File, x)
+					if cc, ok := x.(*ast.CaseClause); ok {
+						for _, e := range cc.List {
+							if v, ok := ConstI64(info, e); ok {
+								kinds[v] = true
+							}
+						}
+						break
+					}
 				}
 			}
 		}
